@@ -34,6 +34,7 @@ PACKAGES = [
     "snap-dataplane",
     "anapaya-edge-tun",
     "pocketscion",
+    "scion-protobuf",
 ]
 REQUIRED_CRATES = [p.replace("-", "_") for p in PACKAGES]
 
